@@ -17,6 +17,7 @@ Subject: the loop-by-loop model `CMK.get` (`Model/CuthillMcKee.lean`) of `amgcl:
   of `0..n-1` in each of the forms used elsewhere (`isPermB`, list permutation of `List.range n`, `PermOn`, `IsPerm`).
 * `cmk_total` — the same as a statement about the outcomes; `cmk_fuel_indep` — every fuel `≥ n` (for the main loop and
   for the list walks) gives the same result: the fuelled loops are the unbounded loops of the code.
+* `cmk_first` — `perm[0] = 0`: the ordering starts with the initial node.
 * `cmk_empty_oob` — `n = 0`: the outcome is `oob` (the code writes `perm[0]` / reads `degree[0]` of empty vectors).
 * `skyline_cmk_spec` — `C16.skyline_spec` instantiated with the MODEL's Cuthill–McKee ordering (what the constructor of
   `skyline_lu` computes by default): no hypothesis on the ordering is left.
@@ -58,7 +59,7 @@ theorem cmk_perm (reverse : Bool) (A : CRS K) (perm0 : Array Nat) (hn : 1 ≤ A.
     (hwf : A.WF) (hp : perm0.size = A.nrows) :
     ∃ perm, CMK.get reverse A perm0 = .ok perm ∧ isPermB A.nrows perm = true ∧
       perm.toList.Perm (List.range A.nrows) ∧ PermOn A.nrows perm ∧ Adapters.IsPerm perm := by
-  obtain ⟨perm, h1, h2⟩ := getFuel_spec reverse A perm0 hn hsq hwf hp (Nat.le_refl _) (Nat.le_refl _)
+  obtain ⟨perm, h1, h2, _⟩ := getFuel_spec reverse A perm0 hn hsq hwf hp (Nat.le_refl _) (Nat.le_refl _)
   have hb := isPermB_of_permOn h2
   refine ⟨perm, h1, hb, isPermB_sound _ _ hb, h2, ?_⟩
   unfold Adapters.IsPerm
@@ -75,6 +76,15 @@ example : CMK.get true (⟨6, #[[], [(2, 1), (3, 1)], [(4, 1)], [(5, 1), (1, 1),
     #[9, 9, 9, 9, 9, 9] = .ok #[0, 1, 2, 3, 5, 4] := by decide +kernel
 example := cmk_perm false (⟨5, #[[(2, 1), (0, 1)], [(3, 1), (3, 1)], [(0, 1)], [], [(1, 1), (4, 1)]]⟩ : CRS Nat)
     #[9, 9, 9, 9, 9] (by decide) rfl (by decide) rfl
+
+/-- the ordering starts with the initial node `0` -/
+theorem cmk_first (reverse : Bool) (A : CRS K) (perm0 : Array Nat) (hn : 1 ≤ A.nrows) (hsq : A.ncols = A.nrows)
+    (hwf : A.WF) (hp : perm0.size = A.nrows) :
+    ∃ perm, CMK.get reverse A perm0 = .ok perm ∧ perm.getD 0 0 = 0 := by
+  obtain ⟨perm, h1, _, h3⟩ := getFuel_spec reverse A perm0 hn hsq hwf hp (Nat.le_refl _) (Nat.le_refl _)
+  exact ⟨perm, h1, h3⟩
+
+example := cmk_first true (⟨2, #[[(1, 1)], []]⟩ : CRS Nat) #[5, 5] (by decide) rfl (by decide) rfl
 
 /-- the failure outcomes of the model never occur on a square well-formed pattern with `n ≥ 1`: no
 `precondition(found)` failure, no out-of-range access, no loop runs out of fuel -/
